@@ -176,24 +176,43 @@ def pairs : List Nat → List (Nat × Nat)
   | a :: b :: t => (a, b) :: pairs t
   | _ => []
 
+def nameVal : Option Val → Option Bytes
+  | some (.atom (.name n)) => some n
+  | _ => none
+
+def natVal : Option Val → Option Nat
+  | some (.atom a) => natAtom a
+  | _ => none
+
+def arrVal : Option Val → Option (List Atom)
+  | some (.arr l) => some l
+  | _ => none
+
+/-- `/W`: exactly three non-negative integers, each at most 4, the second not 0 -/
+def widthsMeaning (l : List Atom) : Option (Nat × Nat × Nat) :=
+  match l.map natAtom with
+  | [some w0, some w1, some w2] =>
+    if w0 ≤ 4 ∧ w1 ≤ 4 ∧ w2 ≤ 4 ∧ w1 ≠ 0 then some (w0, w1, w2) else none
+  | _ => none
+
+/-- `/Index`: absent (or not an array - the code then ignores it) means `[0 Size]`; otherwise an
+    even number of non-negative integers, read as (start, count) pairs -/
+def indexMeaning (size : Nat) : Option (List Atom) → Option (List (Nat × Nat))
+  | none => some [(0, size)]
+  | some l =>
+    if l.length % 2 = 0 ∧ l.all (fun a => (natAtom a).isSome) then some (pairs (l.filterMap natAtom))
+    else none
+
 /-- What a well-formed xref-stream dictionary says (filters aside): `/Type /XRef`, a
-    non-negative integer `/Size`, `/W` three integers in 0..4 with a non-zero second, and
-    `/Index` absent (then `[0 Size]`) or an even-length array of non-negative integers.
-    `none` = malformed. -/
+    non-negative integer `/Size`, `/W` and `/Index` as above.  `none` = malformed. -/
 def dictMeaning (d : Dict) : Option (List (Nat × Nat) × Nat × Nat × Nat) :=
-  match lookup d sType, lookup d sSize, lookup d sW with
-  | some (.atom (.name t)), some (.atom a), some (.arr [x0, x1, x2]) =>
-    match natAtom a, natAtom x0, natAtom x1, natAtom x2 with
-    | some size, some w0, some w1, some w2 =>
-      if t = sXRef ∧ w0 ≤ 4 ∧ w1 ≤ 4 ∧ w2 ≤ 4 ∧ w1 ≠ 0 then
-        match lookup d sIndex with
-        | some (.arr l) =>
-          if l.length % 2 = 0 ∧ l.all (fun a => (natAtom a).isSome) then
-            some (pairs (l.filterMap natAtom), w0, w1, w2)
-          else none
-        | _ => some ([(0, size)], w0, w1, w2)
-      else none
-    | _, _, _, _ => none
+  match nameVal (lookup d sType), natVal (lookup d sSize), arrVal (lookup d sW) with
+  | some t, some size, some w =>
+    if t = sXRef then
+      match widthsMeaning w, indexMeaning size (arrVal (lookup d sIndex)) with
+      | some (w0, w1, w2), some idx => some (idx, w0, w1, w2)
+      | _, _ => none
+    else none
   | _, _, _ => none
 
 /-- no `/Filter` at all (the only case the slicing spec speaks about) -/
